@@ -142,7 +142,7 @@ type c18Env struct {
 
 func newC18Env() *c18Env {
 	c := chain.New(chain.Options{})
-	ctx := scen.PreparedNoOrdersSeed("prepared-without-orders").Build(c)
+	ctx := scen.PreparedNoOrdersSeed("prepared-without-orders", scen.ThreeLetterTypeActions()...).Build(c)
 	e := &c18Env{c: c, base: ctx, ecoDoc: scen.ExportEco(c, ctx)}
 	var err error
 	e.dataGen, err = c.DataSrv.ExportGenesis(ctx, c.Cdc)
@@ -417,7 +417,9 @@ func basketOp() c18op {
 	return c18op{name: "Put+Take", dims: nil, run: func(c *chain.Chain, ctx sdk.Context, cfg c18cfg) (bool, [][2]string) {
 		var probs [][2]string
 		branch, _ := ctx.CacheContext()
-		for _, a := range []*explore.Action{scen.Put(scen.B, scen.NCT, scen.BC(scen.B1, "1")), scen.Take(scen.B, scen.NCT, "1000000", false)} {
+		for _, a := range []*explore.Action{scen.Put(scen.B, scen.NCT, scen.BC(scen.B1, "1")), scen.Take(scen.B, scen.NCT, "1000000", false),
+			// the basket of a three-letter credit type added through governance
+			scen.Put(scen.B, scen.BioBasket, scen.BC(scen.BioBatch, "1")), scen.Take(scen.B, scen.BioBasket, "1000000", false)} {
 			_, w, res, _ := explore.Apply(c, branch, a)
 			if !res.OK {
 				probs = append(probs, [2]string{"op-fails/" + strings.SplitN(a.Label, "(", 2)[0], fmt.Sprintf("%s with %s: %s", a.Label, cfg, res.Err)})
@@ -525,7 +527,7 @@ func init() {
 		o := runner.New("C18", tier, "model_checking")
 		o.Assumptions = []string{
 			"trusted base and composition as for the Engine A checks",
-			"configuration alphabet: class/basket fee in {unset, 0uregen, 1uregen, 20000000uregen, 5stake, 2x10^19 uregen (beyond 64 bits)}; allowlist {off, on+empty, on+creator}; allowed denoms {none, uregen, uregen+ibc voucher, uregen+ibc voucher+mixed-case denom+stake}; buyer and seller fee rate each in " + fmt.Sprintf("%q", c18Rates),
+			"configuration alphabet: class/basket fee in {unset, 0uregen, 1uregen, 20000000uregen, 5stake, 2x10^19 uregen (beyond 64 bits)}; allowlist {off, on+empty, on+creator}; credit types C and (three letters, added through governance) BIO, each with a basket; allowed denoms {none, uregen, uregen+ibc voucher, uregen+ibc voucher+mixed-case denom+stake}; buyer and seller fee rate each in " + fmt.Sprintf("%q", c18Rates),
 			"acceptance paths: (msg) governance messages through ValidateBasic + handler from the prepared state; (genesis) Module.ValidateGenesis + InitGenesis of the prepared state's export with the parameter tables replaced",
 			"an operation's own preconditions: creator funded, allow-listed when the allowlist is on, offering at least the fee; seller holds credits and asks in an allowed denom; buyer funded, bid = ask, max fee far above the buyer fee",
 		}
